@@ -1542,24 +1542,20 @@ class Mutable(EnvironmentFilter):
         first_is_dense   = isinstance(first['context'], primitives.Dense)
         first_is_sparse  = isinstance(first['context'], primitives.Sparse)
         first_is_value   = not (first_is_dense or first_is_sparse)
-        first_is_mutable = isinstance(first['context'], (list,dict,SparseDense))
 
-        if first_is_mutable:
+        #the container is decided for every interaction: a sequence may mix them (e.g., lists and tuples)
+        if first_is_dense:
             for interaction in interactions:
                 new = interaction.copy()
-                new['context'] = new['context'].copy()
-                yield new
-
-        elif first_is_dense:
-            for interaction in interactions:
-                new = interaction.copy()
-                new['context'] = list(new['context'])
+                context = new['context']
+                new['context'] = context.copy() if isinstance(context,(list,SparseDense)) else list(context)
                 yield new
 
         elif first_is_sparse:
             for interaction in interactions:
                 new = interaction.copy()
-                new['context'] = dict(new['context'].items())
+                context = new['context']
+                new['context'] = context.copy() if isinstance(context,dict) else dict(context.items())
                 yield new
 
         elif first_is_value:
